@@ -8,7 +8,7 @@ REJECTED = [203, 205, 206, 300, 301, 304, 400, 401, 403, 404, 408, 409, 410, 418
 
 def scenario(rng, tier):
     lines = ["interval 10"]
-    meta = {"subs": {}, "msgs": {}, "deleted": [], "after_delete": []}
+    meta = {"subs": {}, "msgs": {}, "deleted": [], "after_delete": [], "twins": {}}
     n_subs = 3 if tier == "quick" else 6
     n_msgs = 6 if tier == "quick" else 14
     for i in range(n_subs):
@@ -19,6 +19,13 @@ def scenario(rng, tier):
         plain = sname("p", "plain%d" % i)
         lines.append("csub %s %s -" % (hx(plain), hx(t)))
         meta["subs"]["tag%d" % i] = dict(sub=s, topic=t, plain=plain)
+        if i >= 1:
+            # a second push subscription on the SAME topic with its own endpoint path: every message of the
+            # topic is POSTed to both endpoints, each POST naming the subscription it is delivered on
+            s2 = sname("p", "twin%d" % i)
+            lines.append("csub %s %s twin%d" % (hx(s2), hx(t), i))
+            meta["subs"]["twin%d" % i] = dict(sub=s2, topic=t, plain=None)
+            meta["twins"]["tag%d" % i] = "twin%d" % i
     maxlen = 0
     for i in range(n_subs):
         t = meta["subs"]["tag%d" % i]["topic"]
@@ -43,7 +50,7 @@ def scenario(rng, tier):
                 attrs[b"k"] = ("v%d" % j).encode()
             if rng.chance(1, 4):
                 attrs["ключ".encode()] = b""
-            lines.append("script %s %s" % (hx(data), ",".join(outcomes)))
+            lines.append("script tag%d:%s %s" % (i, hx(data), ",".join(outcomes)))
             a = jl(("%s=%s" % (hx(k_), hx(v)) for k_, v in sorted(attrs.items())), ";")
             batch.append(hx(data) + (";" + a if attrs else ""))
             meta["msgs"][hx(data)] = dict(tag="tag%d" % i, outcomes=outcomes, attrs=a if attrs else "-")
